@@ -66,6 +66,22 @@ def check_config(ctx, prog, cfg):
 
     # ---------------- R6 who may terminate
     n_term = 0
+    # a helper that only the terminators call (directly or through other such helpers) is part of them
+    callers = {}
+    for g in prog.functions:
+        for n in walk(g.body):
+            if n.get('k') == 'call' and n.get('inrepo') and n.get('q'):
+                callers.setdefault(n['q'], set()).add(g.q)
+            if n.get('k') == 'fnref' and n.get('q'):
+                callers.setdefault(n['q'], set()).add('<address taken in %s>' % g.q)
+
+    def only_from_terminators(q, seen=()):
+        if q.split('<')[0] in MAY_TERMINATE:
+            return True
+        cs = callers.get(q, set())
+        if not cs or q in seen:
+            return False
+        return all(only_from_terminators(c, seen + (q,)) for c in cs)
     for f in prog.functions:
         for n in walk(f.body):
             bad = None
@@ -75,7 +91,7 @@ def check_config(ctx, prog, cfg):
                 bad = 'throw'
             if bad:
                 n_term += 1
-                ok = f.q.split('<')[0] in MAY_TERMINATE
+                ok = only_from_terminators(f.q)
                 ctx.ob('C16.R6', K('%s|%s' % (f.q, n.get('l'))), ok, n.get('l'),
                        '%s terminates the process directly (%s); only masa_exit may' % (f.q, bad), sample='%s in %s' % (bad, f.q), nontrivial=False)
     ctx.floor(K('termination_sites'), n_term, 1)
